@@ -25,5 +25,5 @@ git status --short | grep -v _seed | head -5
 ) > /root/trial/$id.verify 2>&1
 v="$(grep -c 'FAIL' /root/trial/$id.verify) FAIL-lines $(grep -E 'suite-exit|with-exit|without-exit' /root/trial/$id.verify | tr '\n' ' ')"
 mkdir -p /verif/seeded/$id; cp -r $wt/_seed/. /verif/seeded/$id/
-/verif/scripts/try_seed_wt.sh $wt $prop --tier $tier > /root/trial/$id.log 2>&1; rc=$?
+/verif/scripts/try_seed_wt.sh $wt ${CHECKPROP:-$prop} --tier $tier > /root/trial/$id.log 2>&1; rc=$?
 echo "$id verify[$v] check-exit=$rc $(grep -c '^VIOLATION' /root/trial/$id.log) violations, $(grep -c INCONCLUSIVE /root/trial/$id.log) inconclusive"
